@@ -243,7 +243,7 @@ func scenC18(k *K) {
 	k.Wait()
 	for j := 0; j < 60 && !k.IsDone(qop); j++ {
 		k.Wait()
-		time.Sleep(time.Second)
+		kernelSleep(time.Second)
 	}
 	k.W.Detach(Q.Inc)
 	k.Wait()
